@@ -440,12 +440,38 @@ def rule_unpack(run):
     run.end()
 
 
+def rule_defaults(run):
+    run.begin(
+        "C10.defaults",
+        "default values of parameters are bound to the VALUE of the default expression (evaluated once, at definition), "
+        "for functions defined outside traced code, local functions and lambdas alike: every default converter returns "
+        "the result of the statement it evaluated and records that statement",
+        floor=3,
+    )
+    prep = run.idx.mod(PREP)
+    n = 0
+    for q, f in prep.functions.items():
+        if q.split(".")[-1].split("#")[0] != "default_converter":
+            continue
+        n += 1
+        par = f.node.args.args[0].arg
+        ev = P.find(f.node, f"__s = self.apply({par})")
+        rets = [r for r in walk_local(f.node) if isinstance(r, ast.Return)]
+        ok = len(ev) == 1 and len(rets) == 1 and P.match(P.compile_pattern("__s.result()"), rets[0].value, {"__s": ev[0][1]["__s"]}) is not None
+        run.ob(ok, q.replace(".<locals>.", "/"), file=prep.rel, line=f.node.lineno, detail="binds-value", expected="stmt = self.apply(x); ...; return stmt.result()", found=src(rets[0])[:60] if rets else "no return")
+        rec = bool(ev) and any(isinstance(c.func, ast.Attribute) and c.func.attr == "append" and c.args and dotted(c.args[0]) == ev[0][1]["__s"] for c in calls_in(f.node))
+        run.ob(rec, q.replace(".<locals>.", "/"), file=prep.rel, line=f.node.lineno, detail="records-statement", expected="the evaluating statement is kept (bound statements)", found="ok" if rec else "dropped")
+    if n < 3:
+        raise AnalysisError(f"default converters not recognised ({n})")
+    run.end()
+
+
 def rule_purge(run):
     from . import c11
     c11.rule_definition_purge(run)   # a stale cached definition makes a traced function see old globals (C10) and history (C11)
 
 
-RULES = [rule_tables, rule_dispatch, rule_compare_chain, rule_boolop, rule_fail_closed, rule_bind, rule_env, rule_builtins, rule_siblings, rule_unpack, rule_purge]
+RULES = [rule_tables, rule_dispatch, rule_compare_chain, rule_boolop, rule_fail_closed, rule_bind, rule_env, rule_builtins, rule_siblings, rule_unpack, rule_purge, rule_defaults]
 LEVEL = "other"
 EXPLANATION = (
     "The tracer re-implements CPython's evaluation rules by hand; decided here, for all programs, are the parts of "
